@@ -62,6 +62,9 @@ type Body struct {
 	Media  string  `json:"media,omitempty"`
 	To     string  `json:"to,omitempty"`
 	Req    bool    `json:"req,omitempty"`
+	// Alt: further media types the body is declared with besides application/json (same schema for +json types,
+	// binary otherwise); application/json stays the one the generated code speaks.
+	Alt []string `json:"alt,omitempty"`
 }
 
 type Response struct {
@@ -295,7 +298,15 @@ func headerJSON(h Header) map[string]any {
 func bodyContent(b Body) map[string]any {
 	switch b.K {
 	case "json":
-		return map[string]any{"application/json": map[string]any{"schema": schemaJSON(*b.Schema)}}
+		m := map[string]any{"application/json": map[string]any{"schema": schemaJSON(*b.Schema)}}
+		for _, mt := range b.Alt {
+			if strings.HasSuffix(mt, "+json") {
+				m[mt] = map[string]any{"schema": schemaJSON(*b.Schema)}
+			} else {
+				m[mt] = map[string]any{"schema": map[string]any{"type": "string", "format": "binary"}}
+			}
+		}
+		return m
 	case "raw":
 		return map[string]any{b.Media: map[string]any{"schema": map[string]any{"type": "string", "format": "binary"}}}
 	}
